@@ -534,6 +534,84 @@ pub fn build(seed: u64, size: usize) -> Pool {
             pushf(&mut ops, Op::CellToBoundaryDefault { cell: x }, g, fam);
         }
     }
+    // (g) cell ids that agree in everything but ONE curve digit (top, middle or bottom of the
+    //     position field): what a hash or a truncated key of the position would confuse
+    for _ in 0..n(50) {
+        let &(c, g) = rng.pick(&base_cells);
+        let d = match a5::core::serialization::deserialize(c) {
+            Ok(d) if d.resolution >= 3 => d,
+            _ => continue,
+        };
+        fam += 1;
+        let levels = (d.resolution - 1) as u32; // quaternary digits of s
+        pushf(&mut ops, Op::CellToLonLat { cell: c }, g, fam);
+        pushf(&mut ops, Op::CellToBoundary { cell: c, closed: true, segments: Some(1) }, g, fam);
+        let orient = rng.below(6) as u8;
+        pushf(&mut ops, Op::SToAnchor { s: d.s, res: levels, orient }, 255, fam);
+        for lvl in [levels - 1, levels.saturating_sub(2), levels / 2, 1, 0] {
+            if lvl >= levels {
+                continue;
+            }
+            let s2 = d.s ^ ((1 + rng.below(3)) << (2 * lvl));
+            let twin = a5::core::utils::A5Cell { origin_id: d.origin_id, segment: d.segment, s: s2, resolution: d.resolution };
+            if let Ok(c2) = a5::core::serialization::serialize(&twin) {
+                pushf(&mut ops, Op::CellToLonLat { cell: c2 }, g, fam);
+                if rng.pct(60) {
+                    pushf(&mut ops, Op::CellToBoundary { cell: c2, closed: true, segments: Some(1) }, g, fam);
+                }
+                if rng.pct(40) {
+                    pushf(&mut ops, Op::GetPentagon { origin: d.origin_id, segment: d.segment as u32, s: s2, res: d.resolution }, g, fam);
+                }
+                pushf(&mut ops, Op::SToAnchor { s: s2, res: levels, orient }, 255, fam);
+                if rng.pct(30) {
+                    if let Ok(ctr) = a5::cell_to_lonlat(c2) {
+                        pushf(&mut ops, Op::LonLatToCell { lon: F::of(ctr.longitude()), lat: F::of(ctr.latitude()), res: d.resolution }, g, fam);
+                    }
+                }
+            }
+        }
+    }
+    // (h) neighbours across the discontinuities of the coordinate system: the antimeridian and
+    //     the poles (cells and points a few metres to kilometres apart whose longitudes differ by
+    //     ~360 or ~180 degrees)
+    for _ in 0..n(50) {
+        fam += 1;
+        let r = rng.range(6, 24) as i32;
+        let eps = 10f64.powf(rng.uniform(-6.0, -1.0));
+        let pts: Vec<(f64, f64)> = if rng.pct(70) {
+            let lat = rng.uniform(-80.0, 80.0);
+            vec![(180.0 - eps, lat), (-180.0 + eps, lat), (180.0, lat), (-180.0, lat), (180.0 + eps, lat), (179.0, lat)]
+        } else {
+            let lon = rng.uniform(-180.0, 180.0);
+            let s = if rng.pct(50) { 1.0 } else { -1.0 };
+            vec![(lon, s * (90.0 - eps)), (lon + 180.0, s * (90.0 - eps)), (lon + 90.0, s * (90.0 - eps)), (lon, s * 90.0), (0.0, s * 90.0)]
+        };
+        for (lon, lat) in pts {
+            pushf(&mut ops, Op::LonLatToCell { lon: F::of(lon), lat: F::of(lat), res: r }, 255, fam);
+            if let Ok(c) = a5::lonlat_to_cell(LonLat::new(lon, lat), r) {
+                let g = (c >> 58) as u8 / 5;
+                pushf(&mut ops, Op::CellToBoundary { cell: c, closed: true, segments: Some(1) }, g, fam);
+                if rng.pct(50) {
+                    pushf(&mut ops, Op::CellToBoundaryDefault { cell: c }, g, fam);
+                }
+                pushf(&mut ops, Op::CellToLonLat { cell: c }, g, fam);
+            }
+        }
+    }
+    // (i) calls with BIG results (4^9 cells, 2 MB) next to the same call one level shallower:
+    //     caches with a memory cap, buffers that are reused instead of reallocated
+    for _ in 0..2 {
+        let &(c, g) = rng.pick(&base_cells);
+        let r = a5::get_resolution(c);
+        if !(2..=20).contains(&r) {
+            continue;
+        }
+        fam += 1;
+        pushf(&mut ops, Op::CellToChildren { cell: c, res: Some(r + 9) }, g, fam);
+        pushf(&mut ops, Op::CellToChildren { cell: c, res: Some(r + 1) }, g, fam);
+        pushf(&mut ops, Op::Uncompact { cells: vec![c], res: r + 9 }, g, fam);
+        pushf(&mut ops, Op::Uncompact { cells: vec![c], res: r + 2 }, g, fam);
+    }
     // (c) projection: one face point under every face id; one point and its bitwise neighbours
     for _ in 0..n(30) {
         fam += 1;
@@ -605,6 +683,104 @@ pub fn build(seed: u64, size: usize) -> Pool {
             pushf(&mut ops, Op::Uncompact { cells: vec![c], res: r + 2 }, g, fam);
             pushf(&mut ops, Op::Uncompact { cells: vec![c], res: r + 1 }, g, fam);
             pushf(&mut ops, Op::Uncompact { cells: minus.iter().copied().take(3).collect(), res: r + 2 }, g, fam);
+        }
+    }
+
+    // ---- poison siblings: for members of each family, the same call with ONE argument made
+    //      invalid (error paths taken between near-identical valid calls)
+    {
+        let snapshot: Vec<(Op, u8, u32)> = ops.iter().filter(|p| p.family > 0 && p.poison.is_none()).map(|p| (p.op.clone(), p.group, p.family)).collect();
+        let bad_cell = |rng: &mut Rng, c: u64| -> u64 {
+            match rng.below(3) {
+                0 => (c & 0x03ff_ffff_ffff_ffff) | ((60 + rng.below(4)) << 58), // face/quintant 60..63
+                1 => u64::MAX,
+                _ => c | 1, // marker bits garbled
+            }
+        };
+        // list-taking calls get every variant (their error paths run after part of the work is
+        // done); the others are sampled
+        let mut work: Vec<(Op, u8, u32, u64)> = Vec::new();
+        for (op, group, family) in snapshot {
+            if matches!(op, Op::Compact { .. } | Op::Uncompact { .. }) {
+                for v in 0..4 {
+                    work.push((op.clone(), group, family, v));
+                }
+            } else if rng.pct(12) {
+                let v = rng.below(4);
+                work.push((op, group, family, v));
+            }
+        }
+        for (op, group, family, variant) in work {
+            let (p, why): (Op, &str) = match &op {
+                Op::LonLatToCell { lon, lat, res } => match rng.below(3) {
+                    0 => (Op::LonLatToCell { lon: *lon, lat: *lat, res: 31 + rng.below(3) as i32 }, "resolution_out_of_range"),
+                    1 => (Op::LonLatToCell { lon: F::of(f64::NAN), lat: *lat, res: *res }, "coordinate_out_of_range"),
+                    _ => (Op::LonLatToCell { lon: *lon, lat: F::of(f64::INFINITY), res: *res }, "coordinate_out_of_range"),
+                },
+                Op::CellToLonLat { cell } => (Op::CellToLonLat { cell: bad_cell(&mut rng, *cell) }, "cell_bit_pattern"),
+                Op::CellToBoundary { cell, closed, segments } => {
+                    if rng.pct(50) {
+                        (Op::CellToBoundary { cell: bad_cell(&mut rng, *cell), closed: *closed, segments: Some(1) }, "cell_bit_pattern")
+                    } else {
+                        (Op::CellToBoundary { cell: *cell, closed: *closed, segments: Some(0).or(*segments) }, "segments_out_of_range")
+                    }
+                }
+                Op::CellToChildren { cell, .. } => match rng.below(3) {
+                    0 => (Op::CellToChildren { cell: *cell, res: Some(31) }, "resolution_out_of_range"),
+                    1 => (Op::CellToChildren { cell: *cell, res: Some(a5::get_resolution(*cell) - 1) }, "resolution_out_of_range"),
+                    _ => (Op::CellToChildren { cell: bad_cell(&mut rng, *cell), res: None }, "cell_bit_pattern"),
+                },
+                Op::CellToParent { cell, .. } => match rng.below(3) {
+                    0 => (Op::CellToParent { cell: *cell, res: Some(a5::get_resolution(*cell) + 1) }, "resolution_out_of_range"),
+                    1 => (Op::CellToParent { cell: *cell, res: Some(-2) }, "resolution_out_of_range"),
+                    _ => (Op::CellToParent { cell: bad_cell(&mut rng, *cell), res: None }, "cell_bit_pattern"),
+                },
+                Op::Compact { cells } => {
+                    if variant >= 2 {
+                        continue;
+                    }
+                    let mut c2 = cells.clone();
+                    let at = if variant == 0 { c2.len() } else { rng.below(c2.len() as u64 + 1) as usize };
+                    let seed_cell = cells.first().copied().unwrap_or(0);
+                    c2.insert(at, bad_cell(&mut rng, seed_cell));
+                    (Op::Compact { cells: c2 }, "cell_bit_pattern")
+                }
+                Op::Uncompact { cells, res } => match variant {
+                    0 => (Op::Uncompact { cells: cells.clone(), res: 31 }, "resolution_out_of_range"),
+                    1 => {
+                        // a fine cell with a target beyond the maximum: passes the sizing pass
+                        // first descendant at resolution 29, built arithmetically (never by expansion)
+                        let fine: Vec<u64> = cells
+                            .iter()
+                            .filter_map(|c| {
+                                let d = a5::core::serialization::deserialize(*c).ok()?;
+                                if d.resolution < 2 || d.resolution > 29 {
+                                    return None;
+                                }
+                                let twin = a5::core::utils::A5Cell { origin_id: d.origin_id, segment: d.segment, s: d.s << (2 * (29 - d.resolution)), resolution: 29 };
+                                a5::core::serialization::serialize(&twin).ok()
+                            })
+                            .take(2)
+                            .collect();
+                        if fine.is_empty() {
+                            continue;
+                        }
+                        (Op::Uncompact { cells: fine, res: 31 }, "resolution_out_of_range")
+                    }
+                    2 => {
+                        let mut c2 = cells.clone();
+                        let seed_cell = cells.first().copied().unwrap_or(0);
+                        c2.push(bad_cell(&mut rng, seed_cell));
+                        (Op::Uncompact { cells: c2, res: *res }, "cell_bit_pattern")
+                    }
+                    _ => (Op::Uncompact { cells: cells.clone(), res: *res - 3 }, "resolution_out_of_range"),
+                },
+                Op::Inverse { t, x, y, .. } => (Op::Inverse { t: *t, x: *x, y: *y, origin: 12 + rng.below(20) as u8 }, "origin_out_of_range"),
+                Op::Forward { t, theta, phi, .. } => (Op::Forward { t: *t, theta: *theta, phi: *phi, origin: 12 + rng.below(20) as u8 }, "origin_out_of_range"),
+                Op::GetPentagon { origin, segment, s, res } => (Op::GetPentagon { origin: *origin, segment: *segment + 5, s: *s, res: *res }, "segment_out_of_range"),
+                _ => continue,
+            };
+            ops.push(PoolOp { op: p, group, poison: Some(why.to_string()), cheap: false, family });
         }
     }
 
